@@ -799,4 +799,109 @@ pub struct MPMCFutSender<T> {""")]),
             self.queue.head.load_transaction(Relaxed).commit_direct(1, Relaxed);
         }
         InnerRecv {""")]),
+
+    # ---------------------------------------------------------------- value-role rules
+    V('fullness-window-mask', 'C03', ['P1h'], [E('src/countedindex.rs', "let wrap = self.mask.wrapping_add(1);", "let wrap = self.mask.wrapping_add(0);")]),
+    V('initial-tag-untagged', 'C05', ['P3t'], [E('src/countedindex.rs', "pub const INITIAL_QUEUE_FLAG: usize = ::std::usize::MAX;", "pub const INITIAL_QUEUE_FLAG: usize = ::std::usize::MAX >> 1;")]),
+    V('recheck-masked', 'C04', ['P3t', 'P3b'], [E(MQ, "if reader.load_count(Relaxed) != wrap_valid_tag {", "if reader.load_count(Relaxed) & 0xffff != wrap_valid_tag & 0xffff {")]),
+    V('tryfreeing-no-epoch-record', 'C17', ['P12i'], [E(MEM, """        self.epoch = at;
+        true""", """        let _ = at;
+        true""")]),
+    V('into-single-drop-first', 'C09', ['P9g'], [E(MQ, """        {
+            new_mreader = self.reader.clone();
+            drop(self);
+        }
+        if new_mreader.is_single() {""", """        let single = self.reader.is_single();
+        {
+            new_mreader = self.reader.clone();
+            drop(self);
+        }
+        if single {""")]),
+    V('token-removed-before-unsubscribe', 'C16', ['P12d'], [E(MQ, """        if self.alive {
+            self.alive = false;
+            if self.reader.remove_consumer() == 1 {""", """        if self.alive {
+            self.alive = false;
+            self.queue.manager.remove_token(self.token);
+            if self.reader.remove_consumer() == 1 {"""), E(MQ, """                }
+            }
+            self.queue.manager.remove_token(self.token);
+            fence(SeqCst);""", """                }
+            }
+            fence(SeqCst);""")]),
+    V('remove-token-free-under-lock', 'C17', ['P12h'], [E(MEM, """        {
+            let mut inner = self.mem_manager.lock().unwrap();
+            inner.remove_token(token);
+        }""", """        let mut inner = self.mem_manager.lock().unwrap();
+        inner.remove_token(token);""")]),
+    V('blocking-recheck-no-writers', 'C08', ['P7b'], [E(WAIT, """                let mut lock = self.lock.lock();
+                if check(seq, w_pos, wc) {
+                    return;
+                }
+                self.condvar.wait(&mut lock);""", """                let mut lock = self.lock.lock();
+                if seq == load_tagless(w_pos) || past(seq, load_tagless(w_pos)).1 {
+                    return;
+                }
+                self.condvar.wait(&mut lock);""")]),
+    V('futnotify-take-nine', 'C13', ['P7c'], [E(MQ, "                inline_v.extend(parked.drain(..));", "                inline_v.extend(parked.drain(..).take(9));")]),
+    V('poll-count-hoisted', 'C15', ['P6d'], [E(MQ, """        self.reader.examine_signals();
+        loop {
+            // Loaded before the attempt, see InnerRecv::recv
+            let count = self.reader.reader.load_count(Relaxed);""", """        self.reader.examine_signals();
+        // Loaded before the attempt, see InnerRecv::recv
+        let count = self.reader.reader.load_count(Relaxed);
+        loop {""")]),
+    V('recv-examine-only-on-empty', 'C17', ['P6a'], [E(MQ, """        self.examine_signals();
+        loop {
+            // Loaded before the attempt so it can never be ahead of the slot the
+            // attempt examines, even if another consumer of this stream advances it
+            let count = self.reader.load_count(Relaxed);
+            match self.queue.try_recv(&self.reader) {
+                Ok(v) => return Ok(v),
+                Err((_, TryRecvError::Disconnected)) => return Err(RecvError),
+                Err((pt, TryRecvError::Empty)) => {
+                    unsafe {""", """        loop {
+            // Loaded before the attempt so it can never be ahead of the slot the
+            // attempt examines, even if another consumer of this stream advances it
+            let count = self.reader.load_count(Relaxed);
+            match self.queue.try_recv(&self.reader) {
+                Ok(v) => return Ok(v),
+                Err((_, TryRecvError::Disconnected)) => return Err(RecvError),
+                Err((pt, TryRecvError::Empty)) => {
+                    self.examine_signals();
+                    unsafe {""")]),
+    V('reload-tail-ok-stale', 'C09', ['P1b'], [E(MQ, """                Ok(_) => current_tail,
+                Err(val) => val,""", """                Ok(val) | Err(val) => val,""")]),
+    V('getmaxdiff-validate-before-scan', 'C10', ['P10f'], [E(RC, """                let rg = &*first_ptr;
+                let rval = rg.get_max_diff(cur_writer);""", """                let rg = &*first_ptr;
+                let second_ptr = self.readers.load(Ordering::Relaxed);
+                let rval = rg.get_max_diff(cur_writer);"""), E(RC, """                let second_ptr = self.readers.load(Ordering::Relaxed);
+                if second_ptr == first_ptr {""", """                if second_ptr == first_ptr {""")]),
+    V('view-commit-before-destroy', 'C05', ['P4'], [E(MQ, """                RW::drop_in_place(rv_ref);
+                ctail_attempt.commit_direct(1, Release);""", """                ctail_attempt.commit_direct(1, Release);
+                RW::drop_in_place(rv_ref);""")]),
+    V('recv-is-single-reevaluated', 'C06', ['P3b'], [E(MQ, """                if !is_single {
+                    RW::dec_ref(&ref_cell.refcnt);
+                }
+                match ctail_attempt""", """                if !reader.is_single() {
+                    RW::dec_ref(&ref_cell.refcnt);
+                }
+                match ctail_attempt""")]),
+    V('decref-store-zero', 'C04', ['P3b', 'S1', 'W8'], [E(MQ, "        r.fetch_sub(1, Relaxed);", "        r.store(0, Relaxed);")]),
+    V('unsub-check-then-dec', 'C11', ['P9b'], [E(MQ, "            if self.reader.remove_consumer() == 1 {", "            let last = self.reader.is_single();\n            self.reader.remove_consumer();\n            if last {")]),
+    V('senddrop-notify-last-only', 'C07', ['P8'], [E(MQ, """        self.queue.writers.fetch_sub(1, SeqCst);
+        fence(SeqCst);
+        self.queue.manager.remove_token(self.token);
+        self.queue.waiter.notify();""", """        let last = self.queue.writers.load(Relaxed) == 1;
+        self.queue.writers.fetch_sub(1, SeqCst);
+        fence(SeqCst);
+        self.queue.manager.remove_token(self.token);
+        if last {
+            self.queue.waiter.notify();
+        }""")]),
+    V('update-token-blocking-lock', 'C18', ['P14'], [E(MEM, """            if token_e != epoch {
+                token.epoch.store(epoch, Ordering::Release);
+            }""", """            if token_e != epoch {
+                token.epoch.store(epoch, Ordering::Release);
+                let _g = self.mem_manager.lock().unwrap();
+            }""")]),
 ]
